@@ -6,7 +6,7 @@ namespace rs {
 static const char* const kNames[K_COUNT] = { "none", "mark", "pass", "fail_cpp", "fail_c", "throw_std", "throw_foreign", "print", "clock",
     "alloc", "free", "realloc", "expect_leaks", "ignore_leaks", "ptr_set", "plugin_error",
     "die_signal", "die_exit", "die_abort", "die_stop", "fork_fail", "wait_eintr", "wait_error", "wait_stopped", "wait_exited", "wait_signaled",
-    "plugin_install", "plugin_remove", "other_leak_plugin", "add_failures", "nested_run", "detector_off" };
+    "plugin_install", "plugin_remove", "other_leak_plugin", "add_failures", "nested_run", "detector_off", "misuse_free" };
 const char* kindName(int k) { return k >= 0 && k < K_COUNT ? kNames[k] : "none"; }
 int kindFromName(const char* s) { for (int i = 0; i < K_COUNT; i++) if (!strcmp(s, kNames[i])) return i; return K_NONE; }
 
@@ -173,7 +173,7 @@ void generate(uint64_t seed, const Str& profile, Desc& d, bool exceptions) {
                     if (enThrow) { kinds[nk++] = K_THROW_STD; kinds[nk++] = K_THROW_FOREIGN; }
                     if (nk == 0) continue;
                     o.kind = burst && burstKind < nk && faults.chance(3, 4) ? kinds[burstKind] : kinds[faults.below((uint64_t)nk)];
-                    if (o.kind == K_FAIL_CPP) { o.a = (int64_t)faults.below(N_FAILCPP_KINDS); if (o.a >= 24) o.b = (int64_t)faults.below(o.a == 28 ? N_BITS_CASES : N_OPERAND_PAIRS); }
+                    if (o.kind == K_FAIL_CPP) { o.a = (int64_t)faults.below(N_FAILCPP_KINDS); if (o.a >= 24) o.b = (int64_t)faults.below(o.a == 28 ? N_BITS_CASES : (faults.chance(1, 2) ? N_FIXED_OPERAND_PAIRS : N_OPERAND_PAIRS)); }
                     if (o.kind == K_FAIL_C) o.a = (int64_t)faults.below(N_FAILC_KINDS);
                     if (o.kind == K_THROW_FOREIGN) o.a = (int64_t)faults.below(2);
                     o.s2 = textWithSpecials(faults, f, sfmt("tk%d_", opLine).c_str());
@@ -201,6 +201,7 @@ void generate(uint64_t seed, const Str& profile, Desc& d, bool exceptions) {
                     else if (x < (bigLeaks ? 6u : 8u)) { o.kind = K_FREE; o.a = (int64_t)world.below(bigLeaks ? N_SLOTS : 12); }
                     else if (x < 9) { o.kind = K_REALLOC; o.a = (int64_t)world.below(bigLeaks ? N_SLOTS : 12); o.c = world.small(1, 64); if (world.chance(1, 6)) o.b = 1; }
                     else if (world.chance(1, 12)) o.kind = K_OTHER_LEAK_PLUGIN;
+                    else if (!f.procReal && world.chance(1, 10)) o.kind = K_MISUSE_FREE;
                     else if (ph == 0 || world.chance(1, 2)) { if (world.chance(3, 4)) { o.kind = K_EXPECT_LEAKS; o.a = (int64_t)world.below(5); } else o.kind = K_IGNORE_LEAKS; }
                     else o.kind = K_MARK;
                 }
